@@ -47,6 +47,12 @@ def build(e, env, lit):
         return ops[e[1]](build(e[2], env, lit), build(e[3], env, lit))
     if e[0] == "neg":
         return -build(e[1], env, lit)
+    if e[0] == "chain":
+        # acc = seed; acc = acc op term, n times (a long reduction: depth of the value, not of the expression text)
+        acc, term = build(e[3], env, lit), build(e[4], env, lit)
+        for _ in range(e[2]):
+            acc = ops[e[1]](acc, term)
+        return acc
     if e[0] == "aug":
         seed = build(e[2], env, lit)
         acc = seed
@@ -68,6 +74,11 @@ def exact(e, vals):
         return ops[e[1]](exact(e[2], vals), exact(e[3], vals))
     if e[0] == "neg":
         return -exact(e[1], vals)
+    if e[0] == "chain":
+        acc, term = exact(e[3], vals), exact(e[4], vals)
+        for _ in range(e[2]):
+            acc = ops[e[1]](acc, term)
+        return acc
     if e[0] == "aug":
         return ops[e[1]](exact(e[2], vals), exact(e[3], vals)) - exact(e[2], vals)
     return exact(e[2], vals) if exact(e[1], vals) else exact(e[3], vals)
@@ -82,6 +93,8 @@ def show(e):
         return f"({show(e[2])} {e[1]} {show(e[3])})"
     if e[0] == "neg":
         return f"(-{show(e[1])})"
+    if e[0] == "chain":
+        return f"(acc = {show(e[3])}; {e[2]} times: acc = acc {e[1]} {show(e[4])})"
     if e[0] == "aug":
         return f"(seed := {show(e[2])}; acc = seed; acc {e[1]}= {show(e[3])}; acc - seed)"
     return f"{show(e[1])}.if_else({show(e[2])}, {show(e[3])})"
@@ -160,6 +173,9 @@ def run(res, tier):
             # a comparison at the root, so that its value is what is observed
             e = ("bin", rng.choice(["<", "<=", ">", ">=", "==", "!="]), e, gen_expr(rng, rng.randint(0, 2), names)) if rng.random() < 0.5 else \
                 ("ife", ("bin", rng.choice(["==", "!=", "<=", ">="]), ("var", names[0]), ("var", names[-1])), ("lit", 1), ("lit", 0))
+        if i % 60 == 11:
+            # a long reduction: the value is a chain of several hundred / thousand operations
+            e = ("chain", rng.choice(["+", "-", "+"]), rng.choice([600, 1100, 2500]), ("var", names[0]), gen_expr(rng, 1, names))
         if i % 7 == 3:
             # a value compared with / combined with *itself* (the same Python object on both sides, as on the diagonal of an
             # all-pairs loop), at the root or under an if_else
